@@ -1,0 +1,51 @@
+//  Copyright (c) 2026 Couchbase, Inc.
+//
+// Licensed under the Apache License, Version 2.0 (the "License");
+// you may not use this file except in compliance with the License.
+// You may obtain a copy of the License at
+//
+// 		http://www.apache.org/licenses/LICENSE-2.0
+//
+// Unless required by applicable law or agreed to in writing, software
+// distributed under the License is distributed on an "AS IS" BASIS,
+// WITHOUT WARRANTIES OR CONDITIONS OF ANY KIND, either express or implied.
+// See the License for the specific language governing permissions and
+// limitations under the License.
+
+//go:build verif
+
+package scorch
+
+import "time"
+
+// Exported views of unexported retention helpers, compiled only with the
+// `verif` build tag. They add no behaviour: each forwards to the function
+// the purger uses.
+
+// VerifSnapshot is an (epoch, timestamp) pair, newest first in lists.
+type VerifSnapshot struct {
+	Epoch     uint64
+	TimeStamp time.Time
+}
+
+func verifToMeta(in []VerifSnapshot) []*snapshotMetaData {
+	rv := make([]*snapshotMetaData, len(in))
+	for i, s := range in {
+		rv[i] = &snapshotMetaData{epoch: s.Epoch, timeStamp: s.TimeStamp}
+	}
+	return rv
+}
+
+// VerifTimeSeriesSnapshots forwards to getTimeSeriesSnapshots.
+func VerifTimeSeriesSnapshots(maxDataPoints int, interval time.Duration,
+	snapshots []VerifSnapshot) map[uint64]time.Time {
+	return getTimeSeriesSnapshots(maxDataPoints, interval, verifToMeta(snapshots))
+}
+
+// VerifProtectedSnapshots forwards to (*Scorch).getProtectedSnapshots for the
+// given retention settings.
+func VerifProtectedSnapshots(numSnapshotsToKeep int, interval time.Duration,
+	liveSnapshots []VerifSnapshot) map[uint64]time.Time {
+	s := &Scorch{numSnapshotsToKeep: numSnapshotsToKeep, rollbackSamplingInterval: interval}
+	return s.getProtectedSnapshots(verifToMeta(liveSnapshots))
+}
